@@ -845,6 +845,13 @@ func (fr *Frame) builtin(st *State, ins ssa.Instruction, name string, c *ssa.Cal
 		st.pc = "false"
 		return Val{K: KTuple}
 	case "recover":
+		if fr.contract != nil && fr.contract.Flags["recovers"] != nil {
+			// a cleanup closure whose contract speaks about its panic path: the recovered value is
+			// arbitrary (the enclosing function, or user code it calls, may have panicked)
+			v := r.facts.Fresh("recovered", "Int")
+			r.facts.Assert(fmt.Sprintf("(and (>= %s 0) (= (= %s 0) (= (itag %s) 0)))", v, v, v))
+			return Val{K: KIface, S: v}
+		}
 		return Val{K: KIface, S: r.get(st, "g|$panicking")}
 	case "copy":
 		dst := args[0]
